@@ -1234,6 +1234,112 @@ def rule_param_dependence(chk, prog):
 
 
 # ----------------------------------------------------------------------------
+# rule: the derivative routine is the symbolic derivative of the value routine
+# ----------------------------------------------------------------------------
+def input_variable(forms, name):
+    """The atom to differentiate with respect to for the raw input `name`: the name itself, or the
+    single clamp max/min(name, constants) through which every occurrence passes (the derivative is
+    then the one inside the unclamped region, which is what the repository computes).  None when
+    the input occurs both raw and clamped, or under several different clamps."""
+    raw = ("n", name)
+    clamps = set()
+    for p_ in forms:
+        for a in p_.atoms():
+            if a[0] == "f" and a[1] in ("max", "min") and Poly.atom(raw).key in a[2]:
+                others = [from_k for from_k in a[2] if from_k != Poly.atom(raw).key]
+                if all(not any(b[0] == "n" and b[1].startswith("x:") for b in mono.from_key(o).atoms()) for o in others):
+                    clamps.add(a)
+    if not clamps:
+        return raw
+    if len(clamps) > 1:
+        return None
+    c = next(iter(clamps))
+    if any(mono.occurs(p_, raw, skip=c) for p_ in forms):
+        return None
+    return c
+
+
+def deriv_coefficients(der, dfdx, dfdy, x, aliases):
+    """attr -> canonical coefficient of dfdy accumulated into dfdx[self.attr]; raises NotComparable"""
+    def leaf(node):
+        if isinstance(node, ast.Subscript) and isinstance(node.value, ast.Name) and node.value.id == x:
+            a = idx_attr(node.slice, aliases)
+            if a is not None:
+                return Poly.name("x:" + a)
+        return None
+
+    ev = Evaluator(env={dfdx: mono.Buf("dfdx"), dfdy: Poly.name("dfdy")}, leaf=leaf)
+    ev.run_function(der)
+    acc = {}
+    for st in ev.stores:
+        if not (isinstance(st.target, mono.Buf) and st.target.role == "dfdx"):
+            continue
+        tgt = st.node.target if isinstance(st.node, ast.AugAssign) else st.node.targets[0]
+        a = idx_attr(tgt.slice, aliases) if isinstance(tgt, ast.Subscript) else None
+        if a is None or st.depth != 0 or st.op not in ("+=", "-=") or not isinstance(st.value, Poly):
+            raise NotComparable("store %s is conditional, not an accumulation, or outside the fragment (%r)" % (
+                pf.src(st.node)[:60], st.value))
+        acc[a] = acc.get(a, Poly()) + (st.value if st.op == "+=" else -st.value)
+    out = {}
+    for a, p_ in acc.items():
+        c, rest = mono.coefficient(p_, ("n", "dfdy"))
+        if not rest.is_zero() or mono.occurs(c, ("n", "dfdy")):
+            raise mono.NonLinear("increment to dfdx[self.%s] is not dfdy times a coefficient" % a)
+        out[a] = c
+    return out
+
+
+def rule_deriv_symbolic(chk, prog):
+    mod = prog.module(TD)
+    for cname in registry_classes(mod):
+        cls = mod.cls(cname)
+        feat, der = map_routines(prog, mod, cls)
+        y, x = routine_params(feat, 2)
+        dfdx, dfdy, dx = routine_params(der, 3)
+        val = value_form(feat, y, x, index_aliases(feat))
+        where = "%s:%s" % (TD, cname)
+        if val is None:
+            chk.note("deriv-symbolic", where, "value routine outside the differentiable fragment (clipping / masks / "
+                     "unsupported calls); not decided")
+            chk.count("deriv-symbolic not-decided classes")
+            continue
+        try:
+            coef = deriv_coefficients(der, dfdx, dfdy, dx, index_aliases(der))
+        except NotComparable as e:
+            chk.note("deriv-symbolic", where, "derivative routine outside the fragment: %s" % e)
+            chk.count("deriv-symbolic not-decided classes")
+            continue
+        inputs = sorted({a[1][2:] for a in val.atoms() if a[0] == "n" and a[1].startswith("x:")} | set(coef))
+        for k in inputs:
+            got = coef.get(k, Poly())
+            var = input_variable([val, got], "x:" + k)
+            inst = "%s d y / d x[self.%s]" % (cname, k)
+            if var is None:
+                chk.note("deriv-symbolic", where, "x[self.%s] enters both raw and clamped; not decided" % k)
+                chk.count("deriv-symbolic not-comparable")
+                continue
+            try:
+                want = mono.diff(val, var)
+                verdict = mono.definitely_different(want, got)
+            except NotComparable as e:
+                chk.note("deriv-symbolic", where, "d/dx[self.%s]: %s" % (k, e))
+                chk.count("deriv-symbolic not-comparable")
+                continue
+            if verdict == "equal":
+                chk.ok("deriv-symbolic", inst + " = " + mono.show(got)[:60])
+            elif verdict == "different":
+                chk.violation("deriv-symbolic", TD, cname + ".fill_deriv_", "d y / d x[self.%s]" % k, der.lineno,
+                              "fill_feat_ computes y = %s ; its derivative with respect to x[self.%s] is  %s  but "
+                              "fill_deriv_ accumulates dfdy times  %s  into dfdx[self.%s] (both in canonical form; the "
+                              "two are not the same function)" % (
+                                  mono.show(val)[:160], k, mono.show(want)[:260], mono.show(got)[:260], k), instance=inst)
+            else:
+                chk.note("deriv-symbolic", where, "d/dx[self.%s] not comparable: %s vs %s" % (
+                    k, mono.show(want)[:80], mono.show(got)[:80]))
+                chk.count("deriv-symbolic not-comparable")
+
+
+# ----------------------------------------------------------------------------
 # rule: evaluation routines do not reuse call-history state without looking at the data
 # ----------------------------------------------------------------------------
 META_ATTRS = {"shape", "strides", "ctypes", "data", "size", "dtype", "ndim", "nbytes", "flags", "base", "itemsize"}
@@ -1514,6 +1620,10 @@ def analyse(chk):
                           "reads the array contents validates it")
     chk.rule("param-dep", "every parameter (self.<p>, not an index) read by fill_feat_ is read by fill_deriv_ unless it "
                           "is an additive constant of the value (canonical form: no term contains both p and a raw feature)")
+    chk.rule("deriv-symbolic", "d(value)/dx_k (product / power / chain rule on the canonical form; exp, log) == the "
+                               "coefficient of dfdy that fill_deriv_ accumulates into dfdx[k], as rational-function identity; "
+                               "normalisers: d(fill_fwd)/d(x, rho, inh) == forward-mode coefficients; "
+                               "d(rho, inh)/dX[k] of _get_rho_and_inh == _get_drho_and_dinh")
     chk.rule("list-iter", "FeatureList pairs row i of y / dfdy with feat_list[i] and passes dfdx / x whole")
     chk.guard(rule_maps_structure, prog)
     chk.guard(rule_clamp, prog)
@@ -1524,6 +1634,7 @@ def analyse(chk):
     chk.guard(rule_mask_symmetry, prog)
     chk.guard(rule_stateless, prog)
     chk.guard(rule_param_dependence, prog)
+    chk.guard(rule_deriv_symbolic, prog)
     try:
         chk.count("map classes", len(registry_classes(prog.module(TD))))
     except core.AnalysisError:
